@@ -8,6 +8,7 @@ from . import core, drv, isoc
 from .isoc import PKG
 
 CODECS_QUICK = ('latin_1', 'cp500', 'cp037')
+CODECS_EXTRA = ('ascii',)          # a single-byte codec that does not define every byte (binary ICC data must still pass)
 
 
 def single_byte_codecs():
@@ -63,7 +64,7 @@ def gen_config(seed):
                 if ft == 'FIXED':
                     f['field_length'] = sum(4 if c == 'Y' else 2 for c in isoc.parse_fmt(fmt))
             if py == 'decimal':     # a decimal needs a configured width (also in a variable-length element)
-                f['field_length'] = r.choice((6, 8, 12))
+                f['field_length'] = r.choice((6, 8, 12, 40))
             if py in ('int', 'long') and ft != 'FIXED':
                 f['field_length'] = r.choice((0, 4, 9))
         f = dict(f)
